@@ -462,6 +462,11 @@ pub fn integrity(d: &Dump) -> Vec<(String, String)> {
         } else if e.dir && !e.link {
             // a directory without a child set is tolerated (equivalent to empty)
         }
+        // the file-type bits of the mode say what the entry is
+        let want_type = if e.link { 0o120000 } else if e.dir { 0o040000 } else { 0o100000 };
+        if e.mode & 0o170000 != want_type {
+            push("I10-mode-type-bits-disagree-with-kind", format!("{:?} has mode {:o} but dir={} file={} link={}", k, e.mode, e.dir, e.file, e.link));
+        }
         let flags = (e.dir as u8) + (e.file as u8);
         if flags != 1 {
             push("I9-kind-flags", format!("{:?} dir={} file={} link={}", k, e.dir, e.file, e.link));
